@@ -690,7 +690,22 @@ async fn c19_one(base: usize, seq: &[Mut]) -> Result<(), (String, String, String
                 }
                 // ... and the synthetic tags that depend on it, whichever way the task object was obtained
                 let other = rep.get_task(uuid_of(2)).await.unwrap().expect("task 2");
-                for (how, t) in [("get_task", &h.task), ("create_task on the existing task", &via_create)] {
+                let mut all = rep.all_tasks().await.unwrap();
+                let via_all = all.remove(&uuid).ok_or((at.clone(), "all_tasks() does not list the task".to_string(), "every stored task".to_string()))?;
+                let via_pending = rep.pending_tasks().await.unwrap().into_iter().find(|t| t.get_uuid() == uuid);
+                if via_pending.is_some() != in_ws {
+                    return Err((at, format!("pending_tasks() lists the task: {}", via_pending.is_some()), format!("{in_ws} (it is in the working set)")));
+                }
+                let mut routes = vec![("get_task", &h.task), ("create_task on the existing task", &via_create), ("all_tasks", &via_all)];
+                if let Some(t) = via_pending.as_ref() {
+                    routes.push(("pending_tasks", t));
+                }
+                for (how, t) in &routes {
+                    if t.get_taskmap() != h.task.get_taskmap() {
+                        return Err((at, format!("via {how}: {:?}", t.get_taskmap()), format!("the stored task {:?}", h.task.get_taskmap())));
+                    }
+                }
+                for (how, t) in routes {
                     let tag = |s: &str| t.has_tag(&s.parse::<Tag>().unwrap());
                     if t.is_blocked() != want || tag("BLOCKED") != want || tag("UNBLOCKED") != !want {
                         return Err((at, format!("via {how}: is_blocked {} BLOCKED {} UNBLOCKED {}", t.is_blocked(), tag("BLOCKED"), tag("UNBLOCKED")), format!("blocked = {want} (from the stored dep_ key, the working set and the target's status)")));
